@@ -5,6 +5,9 @@ import Gql.Proofs.Cut
 import Gql.Proofs.Order
 import Gql.Proofs.Collect
 import Gql.Proofs.Bridge
+import Gql.Proofs.IncExec
+import Gql.Proofs.IncExecDefer
+import Gql.Exec.Values
 /-!
 # C04 — Incremental delivery reassembles to the non-incremental response
 
@@ -459,5 +462,107 @@ theorem collect_plan_cut (table : Nat → List Sel) (base base' : Nat) (sels : L
       ∀ k, keyOf k ∈ kvs.map Prod.fst ↔
         k ∈ (collectFields base' (stripSels sels)).grouped.map Prod.fst :=
   Gql.Async.collect_plan_cut table base base' sels hc ha parentOf fuel parent sub hsub
+
+/-! ## 6. The incremental executor itself (error-free, `@defer` only) -/
+
+open Gql.Exec Gql.Async.IncExec in
+/-- C04-6 `incExec_assemble` — *full statement* (open).  For every schema, document (with `@defer`
+on inline fragments and fragment spreads), variables and synchronous data graph on which the
+executor model stays inside its class (`incExec … = some …`: no field or request error is raised,
+no float leaf): folding the delivered pieces into the initial data succeeds and gives, as a JSON
+value, the specification's response data (GraphQL §6, `Spec.executeRequest`) to the same document
+with every `@defer` removed, and that response has no errors. -/
+def incExec_assemble_full : Prop :=
+  ∀ (ops : Ops) (s : Schema) (doc : Doc) (opName : Option Name) (vars : Vars) (root : RVal)
+    (init : J) (pieces : List Piece),
+    incExec ops s doc opName vars root = some (init, pieces) →
+    (Spec.executeRequest ops s (stripDefer doc) opName vars root).errors = [] ∧
+    ∃ r ref, foldPieces init pieces = .ok r ∧
+      toJ (Spec.executeRequest ops s (stripDefer doc) opName vars root).data = some ref ∧
+      SameValue ref r
+
+open Gql.Exec Gql.Async.IncExec in
+/-- C04-6a `incExec_assemble_partial`.  The proved part of `incExec_assemble_full`, for **every**
+request (any schema, any document — nested, labelled, `if:`-switched, overlapping `@defer` on
+inline fragments and named spreads, `@skip`/`@include`, variables, interfaces/unions —, any pure
+synchronous resolvers): whenever the executor model `incExec` (collect with live defer usages →
+`build_execution_plan` per object with the defer-usage set of the running (sub-)executor →
+planned part into the enclosing piece, one execution group per new defer-usage set → recursion into
+every field value and list item) answers, its answer is a *well-formed cut* `c` of one response
+tree: `init = c.initial`, `pieces = c.pieces`, and folding the pieces into the initial data in
+delivery (parent-before-child) order never overwrites a key, never targets a missing or
+non-object value and gives exactly `c.ref` — the tree the same recursion builds with nothing cut
+out (planned keys first, then each execution group's keys).
+
+What is missing for the full statement: `c.ref` is the *specification's* response to the document
+without `@defer` (same keys by `collect_defer_same_keys`, and each key's value equal because the
+field-details list of a key has the same first node and the same set of nodes).  That last step is
+checked on every generated case by the driver (`ref=1`: `c.ref` equals
+`Spec.executeRequest (stripDefer doc)` as a JSON value, `specerrs=0`), not proved. -/
+theorem incExec_assemble_partial (ops : Ops) (s : Schema) (doc : Doc) (opName : Option Name)
+    (vars : Vars) (root : RVal) (init : J) (pieces : List Piece)
+    (h : incExec ops s doc opName vars root = some (init, pieces)) :
+    ∃ c : Cut, incCut ops s doc opName vars root = some c ∧ c.wf = true ∧
+      init = c.initial ∧ pieces = c.pieces ∧ foldPieces init pieces = .ok c.ref := by
+  unfold incExec at h
+  cases hc : incCut ops s doc opName vars root with
+  | none => simp [hc] at h
+  | some c =>
+    simp only [hc, Option.map_some, Option.some.injEq, Prod.mk.injEq] at h
+    obtain ⟨h1, h2⟩ := h
+    subst h1; subst h2
+    exact ⟨c, rfl, incCut_wf hc, rfl, rfl, cut_reassembles c (incCut_wf hc)⟩
+
+open Gql.Exec Gql.Async.IncExec in
+/-- C04-6b `incExec_assemble_any_order`.  The same for **every** order in which the pieces can be
+folded at all (every parent-before-child order can): the result is the same JSON value `c.ref`.
+No side condition on the order is needed: the model's cuts contain no stream batches
+(`incCut_deferOnly`), so every piece is a merge. -/
+theorem incExec_assemble_any_order (ops : Ops) (s : Schema) (doc : Doc) (opName : Option Name)
+    (vars : Vars) (root : RVal) (init : J) (pieces ps : List Piece) (b : J)
+    (h : incExec ops s doc opName vars root = some (init, pieces))
+    (hperm : pieces.Perm ps)
+    (hb : foldPieces init ps = .ok b) :
+    ∃ c : Cut, incCut ops s doc opName vars root = some c ∧ SameValue c.ref b := by
+  obtain ⟨c, hc, hwf, hi, hp, _⟩ := incExec_assemble_partial ops s doc opName vars root init pieces h
+  subst hi; subst hp
+  exact ⟨c, hc, cut_reassembles_any_order c hwf ps b hperm (incCut_streams hc ps hperm) hb⟩
+
+open Gql.Exec Gql.Async.IncExec in
+/-- C04-6c `incCut_wellformed`: the invariant behind 6a — no response key is delivered twice
+anywhere in the tree: per object the planned part and the execution groups have pairwise distinct
+keys (collection keeps response keys distinct, `plan_partition` splits them), recursively. -/
+theorem incCut_wellformed (ops : Ops) (s : Schema) (doc : Doc) (opName : Option Name)
+    (vars : Vars) (root : RVal) (c : Cut) (h : incCut ops s doc opName vars root = some c) :
+    c.wf = true := incCut_wf h
+
+-- Non-vacuity of 6a–6c: `{ a ... @defer(label: "L") { b o { ... @defer { x } y } } }` over
+-- `type Query { a: Int b: Int o: T } type T { x: Int y: Int }`: the initial data is `{a}`, the
+-- group L delivers `{b, o: {y}}` at `[]`, the nested anonymous group `{x}` at `[o]`.
+open Gql.Exec Gql.Async.IncExec in
+example :
+    let sch : Schema := { types := [.object "Query" [] [⟨"a", [], .named "Int" false⟩, ⟨"b", [], .named "Int" false⟩, ⟨"o", [], .named "T" false⟩],
+                                    .object "T" [] [⟨"x", [], .named "Int" false⟩, ⟨"y", [], .named "Int" false⟩]],
+                          query := "Query", mutation := none }
+    let f (n : Name) : Selection := .field none n [] [] []
+    let doc : Doc := { ops := [{ kind := .query, name := none, vars := [], sels :=
+        [f "a", .inline none [⟨"defer", [("label", .str [76])]⟩]
+          [f "b", .field none "o" [] [] [.inline none [⟨"defer", []⟩] [f "x"], f "y"]]] }], frags := [] }
+    let t : RVal := .obj (.name "T") (fun n _ => if n = "x" then .leaf (.int 3) else .leaf (.int 4))
+    let root : RVal := .obj (.name "Query") (fun n _ => if n = "o" then t else if n = "a" then .leaf (.int 1) else .leaf (.int 2))
+    (match incExec Concrete.ops sch doc none [] root with
+     | some (i, ps) =>
+       J.eqv i (.obj [([97], .int 1)]) && ps.length == 2 &&
+       (match ps with
+        | [.merge [] d1, .merge [.key [111]] d2] =>
+          J.eqv (.obj d1) (.obj [([98], .int 2), ([111], .obj [([121], .int 4)])]) &&
+          J.eqv (.obj d2) (.obj [([120], .int 3)])
+        | _ => false) &&
+       (match foldPieces i ps with
+        | .ok r => J.eqv r (.obj [([97], .int 1), ([98], .int 2),
+                                   ([111], .obj [([121], .int 4), ([120], .int 3)])])
+        | .error _ => false)
+     | none => false) = true := by
+  decide +kernel
 
 end Gql.Props.C04
